@@ -500,7 +500,20 @@ def lstr(s):
         if not (0 < ord(ch) < 256):
             raise Refuse("text %r has a character outside 1..255" % s)
         n = n * 256 + ord(ch)
-    return "(dS 0x%x)" % n
+    return "0x%x" % n
+
+
+def cmt(s):
+    return s.replace("\n", " ").replace("-/", "- /")
+
+
+def tstr(t):
+    """plain C-like rendering for comments"""
+    if t[0] == "V":
+        return ("const " if t[2] else "") + ("volatile " if t[3] else "") + t[1]
+    if t[0] == "P":
+        return tstr(t[1]) + " *" + ("nullable " if t[2] else "") + ("const " if t[3] else "") + ("volatile " if t[4] else "") + ("restrict" if t[5] else "")
+    return tstr(t[1]) + "".join("[%d]" % e for e in t[2])
 
 
 def lbool(b):
@@ -538,32 +551,34 @@ def chunked_list(name, typ, elems, L, per=1):
 
 def emit_python(py):
     L = ["-- GENERATED by translate/c49_tables.py from python/mujoco/introspect/{enums,structs,functions}.py.",
-         "-- Do not edit; regenerated on every run.",
+         "-- Do not edit; regenerated on every run.  Texts are numerals (see Model/Introspect.lean); comments give the plain text.",
          "import MjProof.Model.Introspect",
          "namespace MjProof.Gen.IntrospectPython",
-         "open MjProof.CType MjProof.Introspect", ""]
+         "open MjProof.CType MjProof.Introspect",
+         "noncomputable section", ""]
     names = []
     for e in py["enums"]:
         n = "e_" + ident(e["name"])
         names.append(n)
-        L.append("def %s : EnumT := { name := %s, declname := %s, values := [%s] }" % (
-            n, lstr(e["name"]), lstr(e["declname"]), ", ".join("(%s, %s)" % (lstr(a), lint(b)) for a, b in e["values"])))
+        L.append("def %s : EnumT := { name := %s, declname := %s, values := [  -- %s" % (n, lstr(e["name"]), lstr(e["declname"]), cmt(e["declname"])))
+        L.append(join_commented([("  (%s, %s)" % (lstr(a), lint(b)), a) for a, b in e["values"]]))
+        L.append("] }")
     L.append("")
     chunked_list("enums", "EnumT", names, L)
     names = []
     for s in py["structs"]:
         n = "s_" + ident(s["name"])
         names.append(n)
-        L.append("def %s : StructT := { name := %s, declname := %s, items := [" % (n, lstr(s["name"]), lstr(s["declname"])))
+        L.append("def %s : StructT := { name := %s, declname := %s, items := [  -- %s" % (n, lstr(s["name"]), lstr(s["declname"]), cmt(s["declname"])))
         its = []
         for it in s["items"]:
             if it[0] == "field":
-                its.append("  .field %s %s %s" % (lstr(it[1]), ltype(it[2]), lext(it[3])))
+                its.append(("  .field %s %s %s" % (lstr(it[1]), ltype(it[2]), lext(it[3])), "%s : %s" % (it[1], tstr(it[2]))))
             elif it[0] == "close":
-                its.append("  .close")
+                its.append(("  .close", ""))
             else:
-                its.append("  .%s %s" % (it[0], lstr(it[1])))
-        L.append(",\n".join(its))
+                its.append(("  .%s %s" % (it[0], lstr(it[1])), it[1]))
+        L.append(join_commented(its))
         L.append("] }")
     L.append("")
     chunked_list("structs", "StructT", names, L)
@@ -571,50 +586,62 @@ def emit_python(py):
     for f in py["functions"]:
         n = "f_" + ident(f["name"])
         names.append(n)
-        L.append("def %s : FuncT := { name := %s, ret := %s, params := [%s] }" % (
-            n, lstr(f["name"]), ltype(f["ret"]),
-            ", ".join("{ name := %s, type := %s, nullable := %s }" % (lstr(p[0]), ltype(p[1]), lbool(p[2])) for p in f["params"])))
+        L.append("def %s : FuncT := { name := %s, ret := %s, params := [  -- %s %s" % (n, lstr(f["name"]), ltype(f["ret"]), tstr(f["ret"]), f["name"]))
+        L.append(join_commented([("  { name := %s, type := %s, nullable := %s }" % (lstr(p[0]), ltype(p[1]), lbool(p[2])),
+                                  "%s : %s" % (p[0], tstr(p[1]))) for p in f["params"]]))
+        L.append("] }")
     L.append("")
     chunked_list("functions", "FuncT", names, L)
+    L.append("end")
     L.append("end MjProof.Gen.IntrospectPython")
     return "\n".join(L) + "\n"
 
 
+def join_commented(pairs):
+    out = []
+    for i, (code, comment) in enumerate(pairs):
+        sep = "," if i + 1 < len(pairs) else ""
+        out.append(code + sep + (("  -- " + cmt(comment)) if comment else ""))
+    return "\n".join(out)
+
+
 def emit_headers(h, types_ast):
     L = ["-- GENERATED by translate/c49_tables.py from include/mujoco/mujoco.h (clang -ast-dump=json) and the header text.",
-         "-- Do not edit; regenerated on every run.",
+         "-- Do not edit; regenerated on every run.  Texts are numerals (see Model/Introspect.lean); comments give the plain text.",
          "import MjProof.Model.Introspect",
          "namespace MjProof.Gen.IntrospectHeaders",
-         "open MjProof.CType MjProof.Introspect", "",
+         "open MjProof.CType MjProof.Introspect",
+         "noncomputable section", "",
          "/-- every distinct type spelling of the API (as clang prints it, or as the header text spells an array",
          "    parameter) with the AST computed by the translator -/",
          "def typeTable : TypeTable := ["]
     for i, (s, t) in enumerate(zip(h.type_strings, types_ast)):
-        L.append("  (%s, %s)%s  -- %d: %s" % (lstr(s), ltype(t), "," if i + 1 < len(types_ast) else "", i, s.replace("\n", " ")))
+        L.append("  (%s, %s)%s  -- %d: %s" % (lstr(s), ltype(t), "," if i + 1 < len(types_ast) else "", i, cmt(s)))
     L.append("]")
     L.append("")
     names = []
     for e in h.enums:
         n = "e_" + ident(e["name"])
         names.append(n)
-        L.append("def %s : EnumT := { name := %s, declname := %s, values := [%s] }" % (
-            n, lstr(e["name"]), lstr(e["declname"]), ", ".join("(%s, %s)" % (lstr(a), lint(b)) for a, b in e["values"])))
+        L.append("def %s : EnumT := { name := %s, declname := %s, values := [  -- %s" % (n, lstr(e["name"]), lstr(e["declname"]), cmt(e["declname"])))
+        L.append(join_commented([("  (%s, %s)" % (lstr(a), lint(b)), a) for a, b in e["values"]]))
+        L.append("] }")
     L.append("")
     chunked_list("enums", "EnumT", names, L)
     names = []
     for s in h.structs:
         n = "s_" + ident(s["name"])
         names.append(n)
-        L.append("def %s : StructH := { name := %s, declname := %s, items := [" % (n, lstr(s["name"]), lstr(s["declname"])))
+        L.append("def %s : StructH := { name := %s, declname := %s, items := [  -- %s" % (n, lstr(s["name"]), lstr(s["declname"]), cmt(s["declname"])))
         its = []
         for it in s["items"]:
             if it[0] == "field":
-                its.append("  .field %s %d %s" % (lstr(it[1]), it[2], lext(it[3])))
+                its.append(("  .field %s %d %s" % (lstr(it[1]), it[2], lext(it[3])), "%s : %s" % (it[1], h.type_strings[it[2]])))
             elif it[0] == "close":
-                its.append("  .close")
+                its.append(("  .close", ""))
             else:
-                its.append("  .%s %s" % (it[0], lstr(it[1])))
-        L.append(",\n".join(its))
+                its.append(("  .%s %s" % (it[0], lstr(it[1])), it[1]))
+        L.append(join_commented(its))
         L.append("] }")
     L.append("")
     chunked_list("structs", "StructH", names, L)
@@ -622,11 +649,13 @@ def emit_headers(h, types_ast):
     for f in h.functions:
         n = "f_" + ident(f["name"])
         names.append(n)
-        L.append("def %s : FuncH := { name := %s, ret := %d, params := [%s] }" % (
-            n, lstr(f["name"]), f["ret"],
-            ", ".join("{ name := %s, ty := %d, nullable := %s }" % (lstr(p[0]), p[1], lbool(p[2])) for p in f["params"])))
+        L.append("def %s : FuncH := { name := %s, ret := %d, params := [  -- %s %s" % (n, lstr(f["name"]), f["ret"], h.type_strings[f["ret"]], f["name"]))
+        L.append(join_commented([("  { name := %s, ty := %d, nullable := %s }" % (lstr(p[0]), p[1], lbool(p[2])),
+                                  "%s : %s" % (p[0], h.type_strings[p[1]])) for p in f["params"]]))
+        L.append("] }")
     L.append("")
     chunked_list("functions", "FuncH", names, L)
+    L.append("end")
     L.append("end MjProof.Gen.IntrospectHeaders")
     return "\n".join(L) + "\n"
 
